@@ -215,6 +215,21 @@ class Service:
             ST._CallStateCache._c13_puts = 0  # type: ignore[attr-defined]
             ST._CallStateCache.put = counting_put  # type: ignore[method-assign]
         self.ST = ST
+        # record WHAT is sealed at seal time (robust against a change of the AAD): token -> sealed arguments
+        if not hasattr(ST, "_c13_sealed"):
+            ST._c13_sealed = {}  # type: ignore[attr-defined]
+            import inspect
+
+            for fname in ("_seal_cursor_token", "_seal_call_token"):
+                orig_seal = getattr(ST, fname)
+                sig = inspect.signature(orig_seal)
+
+                def recording(*a: Any, _orig: Any = orig_seal, _sig: Any = sig, **k: Any) -> Any:
+                    tok = _orig(*a, **k)
+                    ST._c13_sealed[bytes(tok)] = dict(_sig.bind(*a, **k).arguments)  # type: ignore[attr-defined]
+                    return tok
+
+                setattr(ST, fname, recording)
         self.cache = self.http._call_state_cache
         self.state_types = self.http._state_types
         self.client = falcon.testing.TestClient(app)
@@ -264,7 +279,11 @@ class Service:
         from vgi_rpc.http.server._state_token import _compute_aad, _open_cursor_token
         from vgi_rpc.utils import deserialize_record_batch
 
-        sb, call_id = _open_cursor_token(tok, KEY, _compute_aad(self.auth(ident)), 0)
+        rec = self.ST._c13_sealed.get(bytes(tok))
+        if rec is not None:
+            sb, call_id = rec["state_bytes"], rec["call_id"]
+        else:
+            sb, call_id = _open_cursor_token(tok, KEY, _compute_aad(self.auth(ident)), 0)
         tag = None
         raw = sb
         if sb[:1] == b"\x00":
@@ -286,7 +305,12 @@ class Service:
         import pyarrow as pa
         from vgi_rpc.http.server._state_token import _compute_call_aad, _open_call_token
 
-        csb, cst, sch, isch, call_id, stream_id = _open_call_token(tok, KEY, _compute_call_aad(self.auth(ident)), 0)
+        rec = self.ST._c13_sealed.get(bytes(tok))
+        if rec is not None:
+            csb, cst, sch, isch, call_id, stream_id = (rec["call_state_bytes"], rec["call_state_type"], rec["schema_bytes"],
+                                                       rec["input_schema_bytes"], rec["call_id"], rec["stream_id"])
+        else:
+            csb, cst, sch, isch, call_id, stream_id = _open_call_token(tok, KEY, _compute_call_aad(self.auth(ident)), 0)
         return {
             "ident": ident,
             "callid": self.cid(call_id),
@@ -369,13 +393,24 @@ class Service:
         puts = self.ST._CallStateCache._c13_puts - puts0
         after = self.cache_snapshot()
         new_cur, _ = self.tokens_of(r.content) if r.status_code == 200 else (None, None)
+        message = None
+        try:
+            from harness.rawrpc import error_of, read_streams
+
+            for st in read_streams(r.content):
+                err = error_of(st)
+                if err is not None:
+                    message = err[1]
+                    break
+        except Exception as exc:  # noqa: BLE001
+            message = f"<unparseable body: {type(exc).__name__}>"
         if cancel and self.log and r.status_code == 200:
             try:
                 self.log[0]["out"] = self.schema_id(ipc.open_stream(io.BytesIO(r.content)).schema)
             except Exception:  # noqa: BLE001
                 pass
         return {
-            "status": r.status_code, "log": list(self.log), "cache_before": before, "puts": puts,
+            "status": r.status_code, "log": list(self.log), "cache_before": before, "puts": puts, "message": message,
             "inserted": [e for e in after if e not in before], "removed": [e for e in before if e not in after],
             "new_cursor_tok": new_cur, "rpc_error": r.headers.get("X-VGI-RPC-Error"), "body_head": r.content[:0].hex(),
         }
